@@ -290,6 +290,7 @@ def _mutants():
     from selftest.mutate import Mutant as M
     T = "_dataloaders.py"
     return [
+        M("random-sampler-drops-mode", "_dataloaders.py", "super().__init__(data_source, init_epoch, on_uneven_distributed)", "super().__init__(data_source, init_epoch)", "super().__init__-forwards-shared-options"),
         M("seed-reads-self-epoch", T, "np.random.RandomState((self.base_seed, epoch))",
           "np.random.RandomState((self.base_seed, self.epoch))", "reads-final(self.epoch)"),
         M("global-permutation", T, "shuffled = rs.permutation(self.total)",
